@@ -144,6 +144,31 @@ class World:
             def resolver(_info, _spec=spec, _name=name, **_args):
                 return self.gate(_name, _spec)
             return resolver
+        if "$task" in spec or "$tasks" in spec:
+            # data-loader style: the resolver itself starts asyncio Tasks and returns them (already running)
+            def start_load(_name, _v):
+                async def load():
+                    self.trace.append(("res_start", _name))
+                    try:
+                        return await self.gate(_name, {"v": _v})
+                    finally:
+                        self.trace.append(("res_final", _name))
+                return asyncio.ensure_future(load())
+
+            def task_resolver(_info, _spec=spec, _path=path, **_args):
+                if "$task" in _spec:
+                    return start_load(_path, _spec["$task"])
+                return [start_load(f"{_path}.{i}", v) for i, v in enumerate(_spec["$tasks"])]
+            return task_resolver
+        if "$abort" in spec:
+            # a resolver that triggers the abort signal synchronously (e.g. a permission guard)
+            def aborter(_info, _spec=spec, **_args):
+                ctrl = getattr(self, "ctrl", None)
+                if ctrl is not None:
+                    self.aborted_in_resolver = True
+                    ctrl.abort(self.reason)
+                return _spec["$abort"]
+            return aborter
         if "$raise" in spec:
             def raiser(_info, _spec=spec, **_args):
                 raise RuntimeError(_spec["$raise"])
@@ -379,8 +404,10 @@ async def drive(scen, sched_seed, stop, recorder=None):
     schema = _schema()
     doc = parse(scen["doc"])
     root = world.build(scen["root"])
-    ctrl = AbortController() if scen.get("signal") or (stop and stop["kind"] == "abort") else None
+    ctrl = AbortController() if scen.get("signal") or scen.get("aborts_itself") \
+        or (stop and stop["kind"] == "abort") else None
     reason = RuntimeError("stop requested by the consumer")
+    world.ctrl, world.reason, world.aborted_in_resolver = ctrl, reason, False
     kwargs = {}
     if ctrl is not None:
         kwargs["abort_signal"] = ctrl.signal
@@ -456,10 +483,18 @@ async def drive(scen, sched_seed, stop, recorder=None):
             res = None
         first = None
         if asyncio.isfuture(res) or asyncio.iscoroutine(res):
-            caller = _task(res)
             ok = True
             aborted_here = False
-            while True:
+            if stop is not None and stop.get("at") == -1 and ctrl is not None and not world.aborted_in_resolver:
+                # abort between the call and the first await of its result
+                ctrl.abort(reason)
+                out.stopped = ("abort", -1)
+                aborted_here = True
+            elif world.aborted_in_resolver:
+                out.stopped = ("abort", "resolver")
+                aborted_here = True
+            caller = _task(res)
+            while not aborted_here:
                 await _settle()
                 if caller.done():
                     break
@@ -944,6 +979,15 @@ K_HOOK_EARLY = "hook-fired-before-cancelled-deferred-work-settled"
 K_ABORT_HANG = "abort-with-pending-early-stream-item:consumer-never-released"
 K_UNREACHABLE = "work-of-failed-fragment-or-unintegrated-result:never-cancelled"
 K_SUB_ITERATOR = "subscription-without-abort-signal:separate-source-iterator-never-closed"
+K_NO_LOOP = "early-execution-with-defer-outside-running-event-loop:execution-fails"
+K_CLEANUP_INTERRUPTED = "stream-queue-cleanup-interrupted-by-cancellation-of-its-awaiter:abort-callback-lost"
+
+
+def _cleanup_interrupted(tr):
+    """A queue that was aborted (>= 2 abort calls), whose producer is gone, but whose abort callback never ran: the
+    asynchronous cleanup started by the first abort() was cancelled together with the task awaiting it."""
+    return bool(tr.get("aborted") and tr.get("has_cb") and tr.get("cb") == 0 and not tr.get("finished")
+                and tr.get("prod") == 2 and list(tr.get("events", [])).count(7) >= 2)
 
 ST_CODE = {None: 0, "pending": 1, "fulfilled": 2, "rejected": 3}
 
@@ -1463,6 +1507,40 @@ def sequences(alphabet, n):
 def extra_scenarios():
     """Templates added for specific stop points (requested regression scenarios)."""
     S = []
+    for sk in ("agen", "aiter", "iterable"):
+        # a stream item that has started a nested stream while another field of it is still pending: a stop of the
+        # consumer (or the natural end) cancels the item future, the work the item started must go with it
+        S.append(dict(name=f"stream-item-pending-with-nested-stream-{sk}", kind="incr",
+                      doc="{ hero { id ... @defer { name } } items @stream(initialCount: 0) { id slow kids "
+                          "@stream(initialCount: 0) { id } } }",
+                      root={"hero": {"id": 1, "name": G("n")},
+                            "items": SRC("list", [{"id": 0, "slow": G("s0"),
+                                                   "kids": SRC(sk, [item(0), item(1)], gated=True, name="kids0")}])}))
+        # a deferred fragment fails after a nested fragment under one of its fields has completed and started a stream
+        S.append(dict(name=f"defer-fails-after-nested-defer-started-stream-{sk}", kind="incr",
+                      doc="{ hero { id ... @defer(label: \"O\") { nn sub { id ... @defer(label: \"I\") { kids "
+                          "@stream(initialCount: 0) { id } } } } } a }",
+                      root={"a": G("x"), "hero": {"id": 1, "nn": G(err="boom"),
+                                                  "sub": {"id": 2, "kids": SRC(sk, [item(0), item(1)], gated=True,
+                                                                               name="kids")}}}))
+    # resolvers returning already running Tasks (data loader style), also as list items; the abort may come from a
+    # sibling resolver (synchronously, after the loads were started) or before the first await of the result
+    S.append(dict(name="exec-running-tasks", kind="exec", doc="{ a strs b }",
+                  root={"a": {"$task": "x"}, "strs": {"$tasks": ["p", "q"]}, "b": G("y")}))
+    S.append(dict(name="exec-running-tasks-sibling-aborts", kind="exec", doc="{ a strs hero { name } b }",
+                  root={"a": {"$task": "x"}, "strs": {"$tasks": ["p", "q"]}, "hero": {"name": {"$task": "n"}},
+                        "b": {"$abort": "checked"}}, aborts_itself=True))
+    S.append(dict(name="exec-coro-and-future-sibling-aborts", kind="exec", doc="{ a other { name } b }",
+                  root={"a": G("x", coro=True), "other": {"name": G("o")}, "b": {"$abort": "checked"}},
+                  aborts_itself=True))
+    S.append(dict(name="defer-running-tasks", kind="incr", doc="{ a ... @defer { strs hero { name } } b }",
+                  root={"a": {"$task": "x"}, "strs": {"$tasks": ["p", "q"]}, "hero": {"name": {"$task": "n"}}, "b": G("y")}))
+    S.append(dict(name="defer-running-tasks-sibling-aborts", kind="incr",
+                  doc="{ a ... @defer { strs hero { name } } b }",
+                  root={"a": {"$task": "x"}, "strs": {"$tasks": ["p", "q"]}, "hero": {"name": {"$task": "n"}},
+                        "b": {"$abort": "checked"}}, aborts_itself=True))
+    S.append(dict(name="mutation-running-tasks-sibling-aborts", kind="exec", doc="mutation { a b c }",
+                  root={"a": {"$task": "x"}, "b": {"$abort": "checked"}, "c": {"$task": "z"}}, aborts_itself=True))
     # sources that are async ITERABLES with a separate iterator object
     for sk in ("iterable", "iterable-closable"):
         S.append(dict(name=f"exec-list-{sk}", kind="exec", doc="{ a gen { id name } }",
@@ -1787,6 +1865,8 @@ def tick_sweep(ck, thorough):
 
 def stop_points(out):
     pts = []
+    if out.qps and out.qps[0] == "init" and out.stopped is None:
+        pts.append({"kind": "abort", "at": -1})     # before the first await of the result
     for i, q in enumerate(out.qps):
         if q == "between":
             pts.append({"kind": "aclose", "at": i})
@@ -1813,6 +1893,9 @@ def canon_key(key, cls, scen, out):
         # a stream (or early started task) carried by the result of a fragment that failed, or by a result that
         # was not integrated into the work queue when the consumer stopped, is not reachable for cancel()
         return K_UNREACHABLE
+    if cls == "source-not-closed" and out.stopped is not None and out.stopped[0] == "abort" \
+            and any(_cleanup_interrupted(t) for t in (getattr(out, "siq_traces", None) or [])):
+        return K_CLEANUP_INTERRUPTED
     if scen["kind"] == "sub" and not scen.get("signal") and cls == "source-not-closed" \
             and any(x["kind"].startswith("iterable") and x["started"] and not x["aclose_calls"] for x in out.sources):
         # map_async_iterable closes the iterable, not the iterator that `async for` obtained from it
@@ -1977,7 +2060,8 @@ def run(tier):
             ck.evaluations += 1
             err = check_queue_trace(tr, mo, nev)
             if err:
-                ck.violation(tkey("stream-queue", ctx), f"[{ctx[0]['name']}] StreamItemQueue trace: {err}",
+                ck.violation(K_CLEANUP_INTERRUPTED if _cleanup_interrupted(tr) and ctx[2] and ctx[2].get("kind") == "abort"
+                             else tkey("stream-queue", ctx), f"[{ctx[0]['name']}] StreamItemQueue trace: {err}",
                              rep("StreamItemQueue", ctx, tr, mo))
         outs = m.run_batch(h_cases)
         for (ctx, tr, leaked), mo in zip(h_meta, outs):
@@ -1995,7 +2079,8 @@ def run(tier):
     return ck.finish()
 
 
-REPRO_KEYS = {"F1": K_UNSTARTED, "F3": K_ORPHAN, "F4": K_TWICE, "F5": K_CANCELLED_LIST, "F6": K_HOOK_EARLY, "F7": K_ABORT_HANG, "F8": K_UNREACHABLE, "F9": K_UNREACHABLE, "F10": K_SUB_ITERATOR, "F11": K_UNREACHABLE}
+REPRO_KEYS = {"F1": K_UNSTARTED, "F3": K_ORPHAN, "F4": K_TWICE, "F5": K_CANCELLED_LIST, "F6": K_HOOK_EARLY, "F7": K_ABORT_HANG, "F8": K_UNREACHABLE, "F9": K_UNREACHABLE, "F10": K_SUB_ITERATOR, "F11": K_UNREACHABLE, "F12": K_UNREACHABLE, "F13": K_UNREACHABLE,
+              "F14": K_NO_LOOP}
 
 
 def run_repro_scripts(ck):
